@@ -66,9 +66,14 @@ def no_ante_codes_elsewhere(ctx, repo):
                 if rel not in ("baseapp/baseapp.go", "types/indexer.go"):
                     codespaces.append(rel)
     mods = {}
-    for rel in ("x/nodes/types/keys.go", "x/apps/types/keys.go", "x/gov/types/keys.go", "x/pocketcore/types/keys.go", "x/auth/types/keys.go"):
-        m = re.search(r'ModuleName\s*=\s*"([a-z]+)"', _read(repo, rel))
-        mods[rel.split("/")[1]] = m.group(1) if m else None
+    for mod in ("nodes", "apps", "gov", "pocketcore", "auth"):
+        mods[mod] = None
+        d = os.path.join(repo, "x", mod, "types")
+        for f in sorted(os.listdir(d)) if os.path.isdir(d) else []:
+            if f.endswith(".go") and not f.endswith("_test.go"):
+                m = re.search(r'^\s*ModuleName\s*=\s*"([a-z]+)"', _read(repo, os.path.join("x", mod, "types", f)), re.M)
+                if m:
+                    mods[mod] = m.group(1)
     clash = [k for k, v in mods.items() if k != "auth" and v in (None, "auth")]
     ok = not users and not codespaces and not clash and mods.get("auth") == "auth"
     ctx.facts("ante.auth-codespace-only-in-ante", ok,
